@@ -8,6 +8,7 @@ import PMV.Driver.Minify
 import PMV.Driver.PyCore
 import PMV.Driver.Exports
 import PMV.Driver.Layout
+import PMV.Driver.Resolve
 open PMV
 
 def dispatch (cmd : String) (args : List Sexp) : Option String :=
@@ -31,6 +32,7 @@ def dispatch (cmd : String) (args : List Sexp) : Option String :=
   | "exports.findall" => Driver.Exports.findAllCmd args
   | "inplace.fn" => Driver.InPlace.fnCmd args
   | "layout.check" => Driver.Layout.check args
+  | "resolve.get" => Driver.Resolve.get args
   | "hoist.place" => Driver.Rename.hoistPlace args
   | "rename.assign" => Driver.Rename.assignCmd args
   | "ministring" => Driver.Strings.ministring args
